@@ -78,9 +78,10 @@ def rc(addr):
 def write(spec, path):
     wb = Workbook()
     first = True
+    charts = []
     for sh in spec['sheets']:
         if sh.get('chart'):
-            wb.create_chartsheet(title=sh['title'])
+            charts.append(wb.create_chartsheet(title=sh['title']))
             continue
         if first:
             ws = wb.active
@@ -90,9 +91,12 @@ def write(spec, path):
             ws = wb.create_sheet(sh['title'])
         for addr, v in sh.get('cells', {}).items():
             ws[addr] = dec(v)
-    if first:
-        # only chart sheets requested: openpyxl needs one worksheet; caller's problem
-        pass
+    # an empty chart sheet cannot be read back by openpyxl: give each one a small bar chart over the first worksheet
+    for cs in charts:
+        from openpyxl.chart import BarChart, Reference
+        ch = BarChart()
+        ch.add_data(Reference(wb.worksheets[0], min_col=1, min_row=1, max_row=2))
+        cs.add_chart(ch)
     # chartsheets are appended by create_chartsheet in call order relative to worksheets created so far;
     # openpyxl keeps wb._sheets in creation order, but the default active sheet was created first.
     # Re-order to follow the spec exactly.
